@@ -27,6 +27,29 @@ fn cbr_rejects_bad_p_f64() {
     kani::cover!(true, "confidence_band_radius returned for a rejected probability");
 }
 
+fn stats_f32() -> FitStatistics<SeparableModel<f32>> {
+    FitStatistics {
+        covariance_matrix: DMatrix::from_element(1, 1, 1.0),
+        weighted_residuals: DVector::from_element(1, 0.0),
+        reduced_chi2: 1.0,
+        linear_coefficient_count: 1,
+        degrees_of_freedom: 1,
+        nonlinear_parameter_count: 0,
+        unscaled_confidence_sigma: DVector::from_element(1, 1.0),
+    }
+}
+
+/// C14, f32 models: the same rejection over all f32 bit patterns
+#[kani::proof]
+#[kani::should_panic]
+fn cbr_rejects_bad_p_f32() {
+    let p: f32 = kani::any();
+    kani::assume(!(p.is_finite() && p > 0.0 && p < 1.0));
+    let s = stats_f32();
+    let _r = s.confidence_band_radius(p);
+    kani::cover!(true, "confidence_band_radius returned for a rejected probability");
+}
+
 /// bounded validation of `concat_colwise`: [left | right] column placement (2 x 2 and 2 x 1)
 #[kani::proof]
 #[kani::unwind(6)]
